@@ -209,6 +209,13 @@ class ProgramIndex:
                 m.globals_[st.targets[0].id] = st.value
             elif isinstance(st, ast.AnnAssign) and isinstance(st.target, ast.Name) and st.value is not None:
                 m.globals_[st.target.id] = st.value
+            elif isinstance(st, ast.Assign) and len(st.targets) == 1 and isinstance(st.targets[0], ast.Attribute) and isinstance(st.targets[0].value, ast.Name) \
+                    and st.targets[0].value.id in m.classes:
+                # `C.attr = value` at module level, after the class statement: a class attribute bound late (e.g. to a class defined further down)
+                ci = m.classes[st.targets[0].value.id]
+                if isinstance(st.value, ast.Name):
+                    ci.aliases[st.targets[0].attr] = st.value.id
+                ci.class_attrs[st.targets[0].attr] = st.value
 
     @staticmethod
     def _decorators(node: ast.FunctionDef) -> tuple[str, ...]:
